@@ -12,9 +12,6 @@ def main():
     ap.add_argument("--only", default=None)
     ap.add_argument("--replay", default=None)
     a = ap.parse_args()
-    if a.prop == "selftest":
-        from . import selftest
-        sys.exit(selftest.main())
     mod = importlib.import_module("checks." + a.prop.lower())
     from . import run
     if a.replay:
